@@ -449,6 +449,11 @@ pub fn judge(r: &DuoRun, cfg: &OracleCfg, o: &mut Outcome) -> (WireModel, EndInf
                 o.violate("C04:open-stall", format!("stream {tag}: new_stream_channel at endpoint {opener} is still pending at quiescence although the peer keeps accepting"));
             }
         }
+        // ---- a stream the peer has established sits in the accept backlog although the application
+        //      is waiting in accept_stream_channel (two tasks may call it concurrently: `&self`)
+        if matches!(s.open_ret, Some((_, Ok(())))) && s.sides[1].got_stream.is_none() && !ei.any_fault && !ei.judged[1 - opener] && led.accept_pending_n[1 - opener] > 0 {
+            o.violate("C04:accept-stall", format!("stream {tag}: established by endpoint {opener} and waiting in the accept backlog of endpoint {}, whose application has {} accept_stream_channel call(s) pending at quiescence", 1 - opener, led.accept_pending_n[1 - opener]));
+        }
         if let Some((_, Err(e))) = &s.open_ret {
             let closed_ok = ei.judged[opener] || ei.any_fault;
             if e.contains("Closed") && !closed_ok {
